@@ -1,4 +1,71 @@
 ------------------------------- MODULE PtRepr -------------------------------
-EXTENDS Integers, Sequences, FiniteSets, TLC
-ReprClause(S, T, depth) == "ok"
+(***************************************************************************)
+(* repr(array) (pytato.stringifier.Reprifier) as a specification (X02 c).  *)
+(*                                                                         *)
+(* The printable objects of an expression form a DAG S.nodes (children     *)
+(* first): kind "node" (arrays, function definitions, calls, dictionaries  *)
+(* of named arrays: head = type name, args = the fields shown, by name),   *)
+(* "cont" (tuple / dict / set that holds nodes: args keyed by position /   *)
+(* key), "atom" (everything else: its text).  A node is TRUNCATABLE        *)
+(* (trunc) and most of them add one to the DEPTH of what they contain      *)
+(* (bump = 1; a dictionary of named arrays does not).                      *)
+(*                                                                         *)
+(* The text repr owes the root is the UNFOLDING of the DAG into a term:    *)
+(*   Print(k, d) = "(...)"                       if trunc(k) and d > depth *)
+(*               = head(k)(key = Print(child, d + bump(k)), ...) otherwise *)
+(* so: truncation depth is honoured exactly (an array at depth <= depth is *)
+(* printed with every field, one at depth + 1 is the truncation string),   *)
+(* and a shared sub-expression is printed wherever it occurs, as deep as   *)
+(* its occurrence allows (a cache keyed by the node alone would print the  *)
+(* shallow version everywhere: PtReprMC).                                  *)
+(* Two-sided: a field whose value is trivial (triv: empty tags, default    *)
+(* axes, ...) may be omitted or shown -- all of them or none.              *)
+(*                                                                         *)
+(* T is the term parsed from the real text, hash-consed by the harness     *)
+(* (kinds as above plus "trunc").  Equality of the two terms is decided    *)
+(* through structural classes over the combined sequence (PtDot!ClsUpTo),  *)
+(* so ladders with 2^40 paths cost 40 x (depth + 2) entries.               *)
+(***************************************************************************)
+EXTENDS PtDot
+
+RPos(k, d, depth) == (k - 1) * (depth + 2) + d + 1
+RMin(a, b) == IF a < b THEN a ELSE b
+
+\* expected entries for all (k, d), d in 0..depth+1; omit: trivial fields left out
+ReprEntries(S, depth, omit) ==
+  LET N == Len(S.nodes)
+      one(k, d) ==
+        LET nd == S.nodes[k] IN
+        IF nd.trunc /\ d > depth
+        THEN [lab |-> <<"trunc", "">>, cl |-> <<>>, oid |-> 0, kids |-> <<>>]
+        ELSE LET as == SelectSeq(nd.args, LAMBDA a : ~(omit /\ a.triv)) IN
+             [lab |-> <<nd.kind, nd.head>>, cl |-> <<>>, oid |-> 0,
+              kids |-> [q \in DOMAIN as |->
+                          Edge(RPos(as[q].to, RMin(d + nd.bump, depth + 1), depth),
+                               as[q].key, "", FALSE)]]
+  IN [i \in 1..(N * (depth + 2)) |->
+        one(((i - 1) \div (depth + 2)) + 1, (i - 1) % (depth + 2))]
+
+TermEntries(T, shift) ==
+  [i \in DOMAIN T.nodes |->
+     [lab |-> <<T.nodes[i].kind, T.nodes[i].head>>, cl |-> <<>>, oid |-> 0,
+      kids |-> [q \in DOMAIN T.nodes[i].args |->
+                  Edge(T.nodes[i].args[q].to + shift, T.nodes[i].args[q].key, "", FALSE)]]]
+
+ReprEqual(S, T, depth, omit) ==
+  LET E == ReprEntries(S, depth, omit)
+      n == Len(E)
+      c == ClsUpTo(E \o TermEntries(T, n), FALSE, n + Len(T.nodes)).cls
+  IN c[RPos(S.root, 0, depth)] = c[n + T.root]
+
+TermOK(T) == \A i \in DOMAIN T.nodes : \A q \in DOMAIN T.nodes[i].args : T.nodes[i].args[q].to < i
+
+ReprClause(S, T, depth) ==
+  IF T.error # "" THEN T.error
+  ELSE IF ~TermOK(T) THEN "term_order"
+  ELSE IF \E omit \in BOOLEAN : ReprEqual(S, T, depth, omit) THEN "ok"
+  ELSE IF \E omit \in BOOLEAN : \E d \in {depth - 1, depth + 1} \cap Nat :
+            ReprEqual(S, T, d, omit)
+       THEN "truncation_depth"
+  ELSE "repr_mismatch"
 =============================================================================
